@@ -44,6 +44,7 @@ fn main() {
         "tables" => by_kind!(kind, tables, &args),
         "hist" => by_kind!(kind, hist, &args),
         "reorder" => by_kind!(kind, reorder, &args),
+        "replay" => by_kind!(kind, replay, &args),
         "tdd" => drv_mv::tdd(&args),
         "mtbdd" => drv_mv::mtbdd(&args),
         "pick" => match kind.as_str() {
